@@ -566,6 +566,34 @@ def render_ds(ds) -> str:
     return f"D0({ds.num_obs};[{render_fields(ds._fields, [])}])"
 
 
+def render_obj_x(o, seen: list) -> str:
+    """as c09_world.render_obj, with the `time` attached to a position / posvel (the model's renderObjX)"""
+    for i, x in enumerate(seen):
+        if x is o:
+            return f"#{i}"
+    k = len(seen)
+    seen.append(o)
+    kind, ndim, cols, rows = describe(o)
+    oth = getattr(o, "other", None) if kind in ("position", "posvel") else None
+    rp = getattr(o, "ref_pos", None) if kind in ("position_delta", "posvel_delta") else None
+    tm = getattr(o, "time", None) if kind in ("position", "posvel") else None
+    so = render_obj_x(oth, seen) if oth is not None else "-"
+    sr = render_obj_x(rp, seen) if rp is not None else "-"
+    st = render_obj_x(tm, seen) if tm is not None else "-"
+    return f"#{k}{{{kind};{ndim};{cols};{rows_token(rows)}|o={so}|r={sr}|t={st}}}"
+
+
+def render_fields_x(fields: dict, seen: list) -> str:
+    out = []
+    for name, f in fields.items():
+        if f.fieldtype == "collection":
+            out.append(f"C({name};{f.num_obs};{int(f._write_level)};[{render_fields_x(f.data._fields, seen)}])")
+        else:
+            u = "-" if f._unit is None else "+".join(f._unit)
+            out.append(f"L({name};{f.fieldtype};{f.num_obs};{u};{int(f._write_level)};{render_obj_x(f.data, seen)})")
+    return ",".join(out)
+
+
 def scribble(m, depth=0) -> bool:
     """modify every mutable container of a meta tree in place (what a caller working on a dataset it has read may do);
     returns whether anything could be modified"""
@@ -677,6 +705,7 @@ def one_dataset(ctx: Ctx, setup_ops, level: int, meta: dict, tmp: str, tag: str,
     # the `time` attached to a position (a registered attribute; not part of the model: oracle only).  The target is a
     # time field of the dataset (["f", path]) or an anonymous time (["a", k]; the same k = the same object)
     tattr = tattr or {}
+    xtoks = []
     if tattr:
         from midgard.data.time import Time
 
@@ -687,12 +716,18 @@ def one_dataset(ctx: Ctx, setup_ops, level: int, meta: dict, tmp: str, tag: str,
                     t = ds[what]
                     if describe(t)[0] != "time" or t is ds[path]:
                         raise ValueError("not a time")     # (never a cycle: an object cannot be its own attachment)
+                elif how == "o":
+                    t = rw.objs[what]                       # an anonymous time made by an `obj` operation of the set-up
                 else:
                     if what not in anon_t:
                         anon_t[what] = Time(np.array([51544.0 + 7 * what + r for r in range(ds.num_obs)], dtype=float), scale="utc", fmt="mjd")
                     t = anon_t[what]
                 ds[path].time = t
                 ctx.count("time-attribute:" + ("field" if how == "f" else "anonymous"))
+                if how in ("f", "o"):
+                    xtoks.append(path + "=" + ("f" + what if how == "f" else "o" + str(what)))
+                else:
+                    xtoks = None
             except Exception:
                 ctx.count("time-attribute:not-set")
     case = {"ops": concrete, "level": level, "meta": {k: meta_tokens(v) for k, v in meta.items()}, "mult": mult, "tattr": tattr,
@@ -743,16 +778,26 @@ def one_dataset(ctx: Ctx, setup_ops, level: int, meta: dict, tmp: str, tag: str,
         impl_full = impl
     if model_full != impl_full:
         ctx.disagree("write/read of a dataset (fields, meta, vars)", case, model_full, impl_full)
+    if xtoks and impl.startswith("ok:"):
+        # positions with a `time` attached: the model's writeDSX / readBackX (Model/H5Time.lean), rendered with the attachment
+        xline = ("c10 rtx " + units_token() + " " + " | ".join(("q " + " ".join(op_tokens(o))) for o in concrete)
+                 + " | X " + " ".join(xtoks) + f" | write 0 {level}")
+        xmodel = ctx.driver.ask1(xline)
+        ximpl = f"ok:D0({e.num_obs};[{render_fields_x(e._fields, [])}])"
+        ctx.count("time-attribute:through-the-model")
+        if xmodel != ximpl and xmodel != "?":
+            ctx.disagree("write/read of a dataset with the time attribute of positions", case, xmodel, ximpl)
     if any(v is None for v in meta.values()):
         # a bare None cannot be saved: both sides must refuse (TypeError); nothing more to compare
         if impl != "ERR:w:unsavable":
             ctx.violate("meta:None-accepted", f"Dataset.write accepted a meta value None: {impl[:80]}", case)
         return
-    # the hypothesis of the theorems (Props.C10.read_write / refs_restored): evaluated by the model on this dataset;
+    # the hypothesis of the theorems (Props.C10.read_write / refs_restored / field_sharing_restored: WritableS, which admits
+    # arrays shared between fields): evaluated by the model on this dataset;
     # the branches of the model's write / read this dataset takes (coverage of the generator)
     if info.startswith("W:"):
         w, _, tags = info[2:].partition("|")
-        ctx.count("Writable=" + w)
+        ctx.count("WritableS=" + w)
         for t in filter(None, tags.split(",")):
             ctx.count("branch " + t)
         if "twin-mismatch" in tags:
@@ -761,7 +806,7 @@ def one_dataset(ctx: Ctx, setup_ops, level: int, meta: dict, tmp: str, tag: str,
             # an instance of the theorem: Writable => read (write d l) renders exactly like restrict d l
             ctx.disagree("instance of theorem read_write: Writable, but model rt != model restrict", case, model, restr)
         if w == "F":
-            ctx.count("Writable=F & model " + ("ok" if model.startswith("ok:") else model))
+            ctx.count("WritableS=F & model " + ("ok" if model.startswith("ok:") else model))
             if model.startswith("ok:") and model != restr:
                 # outside the hypothesis (one array held by several fields): the conclusion of read_write is not proved
                 # there, it is evaluated: the rendering shows which fields hold one object
@@ -1048,7 +1093,7 @@ def run(ctx: Ctx):
                 "written with the real h5py into a temporary directory and read back; per dataset the model answers rtm "
                 "(fields + meta + vars through writeDSM / readBackM), rtbits (every numeric array as IEEE-754 words), "
                 "restrict and info (Writable, branches of its write/read taken: 'branch …' counts; 'topology …' counts are "
-                "computed from the real objects); Writable => model rt == model restrict is checked as an instance of "
+                "computed from the real objects); WritableS => model rt == model restrict is checked as an instance of "
                 "theorem read_write; non-trivial = at least one field; distinct by canonical set-up operations, level and "
                 "meta; the codec is additionally exercised value by value")
     ctx.trusted += ["h5py / HDF5 store and return what they are given (modelled as an abstract tree of groups)",
@@ -1084,9 +1129,22 @@ def run(ctx: Ctx):
             mult = {o["path"]: rng.choice([2, -1, 3]) for o in ops if o["op"] == "add" and rng.random() < 0.15}
             times = [o["path"] for o in ops if o["op"] == "add" and o["kind"] == "time"]
             tattr = {}
-            for o in ops:
+            anon_time = {}
+            nobj = sum(1 for o in ops if o["op"] == "obj")
+            n_rows = next(o["n"] for o in ops if o["op"] == "new")
+            for o in list(ops):
                 if o["op"] == "add" and o["kind"] in ("position", "posvel") and rng.random() < 0.25:
-                    tattr[o["path"]] = ["f", rng.choice(times)] if times and rng.random() < 0.65 else ["a", rng.choice([0, 0, 1])]
+                    if times and rng.random() < 0.65:
+                        tattr[o["path"]] = ["f", rng.choice(times)]
+                    else:
+                        k = rng.choice([0, 0, 1])
+                        if k not in anon_time:       # an anonymous time: an object of the world (and of the model's heap)
+                            t_op = obj_op("time", 1, 1, list(range(n_rows)), 90 + k)
+                            t_op["setup"] = True
+                            ops.append(t_op)
+                            anon_time[k] = nobj
+                            nobj += 1
+                        tattr[o["path"]] = ["o", anon_time[k]]
             items.append((ops, rng.choice([1, 2, 3]), meta, mult, tattr, dvars))
         run_cases(ctx, "dataset", items)
     finally:
